@@ -35,6 +35,7 @@ class Cfg:
     p_join_pred: int = 33  # percentage of joins that carry a predicate
     p_restricted: int = 0  # percentage of calculation / sort expressions using an engine-restricted function
     p_wrap: int = 10  # percentage of predicates combined with a constant-foldable operand (OR[p, FALSE], AND[TRUE, p], ...)
+    p_member: int = 0  # percentage of predicates that are a membership test most rows pass (wide ascending / descending range)
     expr_depth: int = 2
     prelude: float = 0.0  # probability of starting from a drawn SELECT state (subset of sort/proj/dedup/slice)
     avoid: frozenset = frozenset()  # keys of known findings whose trigger region generation steers around
@@ -176,7 +177,12 @@ TRIVIAL_TRUE = (("plit", True), ("and", ()), ("not", ("plit", False)), ("or", ((
 @st.composite
 def st_wrapped_pred(draw, cols, cfg, depth=None):
     """A predicate, possibly combined with constant-foldable operands in a way that must not change its meaning."""
-    p = draw(st_pred(cols, cfg.pred_depth if depth is None else depth, plit=cfg.p_plit))
+    if cfg.p_member and draw(st.integers(0, 99)) < cfg.p_member:
+        item = ("ref", draw(st.sampled_from(sorted_tags(cols)))) if cols and draw(st.booleans()) else ("lit", draw(st.integers(-1, 2)))
+        hi, lo, step = draw(st.integers(3, 7)), draw(st.integers(-7, -2)), draw(st.sampled_from([1, 1, 2]))
+        p = ("inrange", item, (hi, lo, -step) if draw(st.booleans()) else (lo, hi, step))
+    else:
+        p = draw(st_pred(cols, cfg.pred_depth if depth is None else depth, plit=cfg.p_plit))
     if draw(st.integers(0, 99)) >= cfg.p_wrap:
         return p
     conn = draw(st.sampled_from(["or", "and"]))
